@@ -40,6 +40,9 @@ TEXT = {
     "C16": dict(technique="property-based testing (rapid): independent set-algebra evaluator over a class AST vs seven lookup paths",
                 text="Random class grammar (ranges, negation, nested subtraction, shorthands, \\p{..}, POSIX names) x {IgnoreCase, ECMAScript, RE2} x bitmap on/off x rune domain exhaustive over U+0000-U+024F plus endpoints, boundaries and samples (thorough: all 1,114,112 code points through the parsed set): CharIn of the parsed set and MatchRunes of \\A[..]\\z, [..]+ and x*[..] must equal the oracle.",
                 note="Category/script tables are Go's (shared trusted base). IgnoreCase domain restricted exactly as the property states.", ref="§6 C16"),
+    "C18": dict(technique="property-based testing (rapid): metamorphic - three spellings of an option set (compile option, leading (?O), wrapping (?O:...)) and scoped vs switch-style groups agree",
+                text="F-core ASTs with nested on/off option groups and corpus patterns x all 32 subsets of {i,m,s,n,x} x inputs x every offset: the three spellings give equal matches, captures, group numbers and names; (?o:X) agrees with (?:(?o)X). Non-trivial cases are those where O actually changes the result (measured against O = {}).",
+                note="Pattern text is x-safe; insignificant blanks/comments are present exactly where x is in effect. Option groups directly inside an expression conditional are rejected by the parser (inherited .NET restriction) and are outside the domain.", ref="§6 C18"),
 }
 
 PENDING = "check not built yet in this session (work in progress; see DESIGN.md section 6 for the planned generated-input check)"
